@@ -32,9 +32,9 @@ CACHE_NOTE = SIM_NOTE + "; reference model R-READER (DESIGN.md Appendix A) writt
 add("C18", "E-SIM", "model-based property testing: generated write/read histories vs reference reader-cache model (history depth sub-oracle)",
     "Held on N generated histories with KEEP_LAST depth 1..4 and max_samples_per_instance in {d, d+1, unlimited}, compared after every step.", CACHE_NOTE)
 add("C19", "E-SIM", "model-based property testing: generated histories under small resource limits; model predicts every rejection (count, reason, instance) observed through the listener",
-    "Held on N generated histories; reader side only (writer-side limits are exercised by C28's scenarios).", CACHE_NOTE)
+    "Held on N generated histories: reader side (model predicts every rejection) and writer side (KEEP_ALL writer with small limits, reader partitioned or reachable, dispose/unregister ops).", CACHE_NOTE)
 add("C20", "E-SIM", "model-based property testing: generated read/take calls with all mask combinations, max_samples and specific instances vs reference model (set, order, marking, removal, ranks, NoData)",
-    "Held on N generated histories; known finding: collections are not grouped by instance (soft check, everything else still compared).", CACHE_NOTE)
+    "Held on N generated histories (set, order incl. grouping by instance, marking, removal, ranks, NoData).", CACHE_NOTE)
 add("C21", "E-SIM", "model-based property testing: generated source timestamps (random/equal/ascending/descending), order oracle per instance",
     "Held on N generated histories.", CACHE_NOTE)
 add("C22", "E-SIM", "model-based property testing: generated write/dispose/unregister histories from 1-2 writers vs DDS instance life-cycle model (instance state, view state, generation counts)",
@@ -80,6 +80,15 @@ for _pid, _eng in FRAGMENT_ENGINE.items():
         _f = json.load(open(_fp))
         add(_pid, _eng, str(_f.get("technique", "property-based testing")), str(_f.get("level_text", "")), str(_f.get("level_note", "")))
 
+# second halves run by the RTPS-object engine (crate rtpsd): appended to technique / note
+for _pid in ("C01", "C02", "C05"):
+    _fp = os.path.join(ROOT, "tools", "fragments", _pid + ".rtps.json")
+    if _pid in CHECKS and os.path.exists(_fp):
+        _f = json.load(open(_fp))
+        CHECKS[_pid]["technique"] += " || second half (engine E-RTPSD, crate rtpsd, run by the same command): " + str(_f.get("technique", ""))
+        CHECKS[_pid]["text"] += " RTPS-object half: " + str(_f.get("level_text", ""))
+        CHECKS[_pid]["note"] += " RTPS-object half: " + str(_f.get("level_note", ""))
+
 def main():
     props = [json.loads(l) for l in open(os.path.join(ROOT, "properties.jsonl"))]
     reasons = {}
@@ -109,6 +118,8 @@ def main():
     for c in checks:
         served.setdefault(c["engine"], []).append(c["property_id"])
     engines = [dict(e, serves_properties=served.get(e["name"], [])) for e in ENGINES if served.get(e["name"])]
+    engines.append({"name": "E-RTPSD", "path": "rtpsd", "serves_properties": ["C01", "C02", "C05"],
+                    "kind_free_text": "second half of C01/C02/C05 (run by the same ./check command, evidence merged): RtpsStatefulWriter/Reader objects driven directly by the harness, exhaustive enumeration of small arrival schedules + proptest-generated scenarios, in-process"})
     m = {
         "version": 1,
         "setup_cmd": "./setup.sh",
